@@ -69,6 +69,14 @@ def _run(cmd, cwd=None, timeout=3600, input=None):
 def lake_build(targets):
     """returns (ok, log). A failing build is *not* an infra error: it is a broken obligation."""
     rc, out = _run(["lake", "build"] + list(targets), cwd=LEAN_DIR, timeout=3000)
+    if rc != 0:
+        # a second check building in the same lake workspace at the same moment can make a build fail for
+        # reasons that have nothing to do with the sources (files replaced under the build): try once more
+        time.sleep(5)
+        rc2, out2 = _run(["lake", "build"] + list(targets), cwd=LEAN_DIR, timeout=3000)
+        if rc2 == 0:
+            return True, out2
+        return False, out2
     return rc == 0, out
 
 
@@ -167,14 +175,34 @@ class LeanDriver:
     def available(self):
         return os.path.exists(self.exe)
 
+    def _wait_for_exe(self):
+        """another check running in parallel may be relinking the same executable: wait for it, then rebuild"""
+        for attempt in range(4):
+            if self.available():
+                return True
+            time.sleep(2 + 3 * attempt)
+            if not self.available() and attempt >= 1:
+                lake_build([os.path.basename(self.exe)])
+        return self.available()
+
     def run(self, lines):
         if not lines:
             return []
-        if not self.available():
+        if not self._wait_for_exe():
             raise InfraError(f"driver {self.exe} missing")
         data = "\n".join(lines) + "\n"
-        p = subprocess.run([self.exe], input=data, stdout=subprocess.PIPE, stderr=subprocess.PIPE,
-                           text=True, timeout=3000)
+        p = None
+        for attempt in range(3):
+            try:
+                p = subprocess.run([self.exe], input=data, stdout=subprocess.PIPE, stderr=subprocess.PIPE,
+                                   text=True, timeout=3000)
+                break
+            except (FileNotFoundError, PermissionError, OSError):
+                # the file vanished / is being rewritten between the check and the exec (parallel relink)
+                time.sleep(3 + 3 * attempt)
+                self._wait_for_exe()
+        if p is None:
+            raise InfraError(f"driver {self.exe} could not be started")
         if p.returncode != 0:
             raise InfraError(f"driver {self.exe} failed: {p.stderr[:500]}")
         out = p.stdout.split("\n")
